@@ -259,7 +259,11 @@ func RunWorker(a WorkerArgs) int {
 			vo.Known = true
 		} else {
 			// minimise, re-run with tracing, write the replay file
-			min, execs := Minimise(w, a.Prop, a.Tier, res.Tape, v, 30*time.Second, 2000)
+			budget, maxExec := 30*time.Second, 2000
+			if !w.Concurrent {
+				budget, maxExec = 60*time.Second, 40000 // histories are long but each execution is cheap
+			}
+			min, execs := Minimise(w, a.Prop, a.Tier, res.Tape, v, budget, maxExec)
 			final := RunOne(w, sim.NewReplayTape(min), a.Prop, a.Tier, true)
 			if final.Viol == nil || final.Viol.Sig != v.Sig || final.Viol.Prop != v.Prop {
 				// should not happen (Minimise only keeps reproducing candidates); fall back to the original
